@@ -818,6 +818,7 @@ func init() {
 		}
 	}
 	props["C17"] = func(x *Ctx) {
+		x.nilArgs()
 		x.aliasedViews(allSS)
 		for _, h := range []int{31, 32, 33, 40} {
 			head := strings.Repeat("-", h)
